@@ -558,7 +558,7 @@ pub fn record<F: Elem>(cfg: &str, seed: u64, n: usize, out: &mut dyn std::io::Wr
                 json!({"op": "from_int", "d": d + 1, "ty": ty, "neg": neg, "mag": num_to_json(&BigUint::from(mag), true)})
             }
             75..=79 => {
-                let lens = [0usize, 1, 2, 3, 4, 5, 6, 8, 9, 11, 12, 16, 17, 33];
+                let lens = [0usize, 1, 2, 2, 2, 3, 4, 5, 6, 8, 9, 11, 12, 16, 17, 33];
                 let m = *rng.pick(&lens);
                 let is: Vec<u64> = (0..m).map(|_| rng.below(K as u64) + 1).collect();
                 let js: Vec<u64> = (0..m).map(|_| rng.below(K as u64) + 1).collect();
